@@ -13,6 +13,8 @@ run(ctx): PRNG geometry pairs x data layouts x masks -> driver impl/c05.py once 
 """
 import math
 import struct
+import sys
+import time
 from concurrent.futures import ThreadPoolExecutor
 
 from .common import ints
@@ -521,12 +523,18 @@ def run(ctx):
                 sel.append(cc)
         per_cs[cs] = sel
 
+    timing = {}
+
     def call(cs):
-        return ctx.impl("c05", {"cases": per_cs[cs]}, timeout=ctx.n(600, 3000), extra_env={"PYTROLL_CHUNK_SIZE": str(cs)})
+        t0 = time.time()
+        o = ctx.impl("c05", {"cases": per_cs[cs]}, timeout=ctx.n(900, 3000), extra_env={"PYTROLL_CHUNK_SIZE": str(cs)})
+        timing[cs] = (len(per_cs[cs]), round(time.time() - t0, 1))
+        return o
 
     with ThreadPoolExecutor(max_workers=len(CHUNK_SIZES)) as ex:
         futs = {cs: ex.submit(call, cs) for cs in CHUNK_SIZES}
         obs = {cs: f.result() for cs, f in futs.items()}
+    t_impl = time.time() - ctx.t0
     by_case = {}
     for cs in CHUNK_SIZES:
         if obs[cs]["chunk_size"] != cs:
@@ -537,7 +545,10 @@ def run(ctx):
     coq = CoqCases()
     for cid in sorted(by_case):
         judge_case(ctx, case_by_id[cid], metas[cid], by_case[cid], coq)
+    t_judge = time.time() - ctx.t0
     coq.evaluate(ctx)
+    sys.stderr.write("  timing C05: build+implementation done at %.1fs (driver (cases, s) per PYTROLL_CHUNK_SIZE: %s), oracle at %.1fs, "
+                     "Coq correspondence at %.1fs\n" % (t_impl, timing, t_judge, time.time() - ctx.t0))
 
 
 def replay(ctx, data):
